@@ -31,7 +31,12 @@ func cmdCRtGuards(c *ctx) {
 	se2 := &lty{kind: "struct", name: "E1", members: []lmember{{ty: &lty{kind: "vec", n: 2, sc: "f32"}}, {ty: &lty{kind: "vec", n: 3, sc: "u32"}}}}
 	elems = append(elems, se, se2)
 	for ei, e := range elems {
-		for pi, pre := range prefixes {
+		for pi := -1; pi < len(prefixes); pi++ {
+			var pre []*lty
+			if pi >= 0 {
+				pre = prefixes[pi]
+			}
+			bare := pi < 0 // the global is itself the run-time-sized array: `var<storage, read_write> buf: array<E>`
 			top := &lty{kind: "struct", name: "Top"}
 			for _, p := range pre {
 				top.members = append(top.members, lmember{ty: p})
@@ -52,12 +57,17 @@ func cmdCRtGuards(c *ctx) {
 				}
 				b.WriteString("}\n")
 			}
-			b.WriteString("struct Top {\n")
-			for i, m := range top.members {
-				fmt.Fprintf(&b, "  m%d: %s,\n", i, m.ty.wgsl())
-			}
-			b.WriteString("}\n@group(0) @binding(0) var<storage, read_write> buf: Top;\n@group(0) @binding(1) var<storage, read> inp: array<u32>;\n")
 			data := fmt.Sprintf("buf.m%d", len(top.members)-1)
+			if bare {
+				fmt.Fprintf(&b, "@group(0) @binding(0) var<storage, read_write> buf: array<%s>;\n@group(0) @binding(1) var<storage, read> inp: array<u32>;\n", e.wgsl())
+				data = "buf"
+			} else {
+				b.WriteString("struct Top {\n")
+				for i, m := range top.members {
+					fmt.Fprintf(&b, "  m%d: %s,\n", i, m.ty.wgsl())
+				}
+				b.WriteString("}\n@group(0) @binding(0) var<storage, read_write> buf: Top;\n@group(0) @binding(1) var<storage, read> inp: array<u32>;\n")
+			}
 			g := &c07gen{c: c}
 			p := g.path(e)
 			lit := map[string]string{"f32": "1.0", "i32": "1i", "u32": "1u"}[p.leaf.sc]
